@@ -9,8 +9,9 @@ In the whole-engine theorem (`Tera.Pipeline.engine_never_panics_T`) the built-in
 are the models of C13 / C14 / C16 / C17 with their own explicit panic outcomes.  This file is the
 same bookkeeping as Props/PanicCensusAdd.lean / PanicCensusRender.lean for that code:
 `Generated.panicCensusBuiltins` is extracted from /repo's current source on every check run,
-`accountBuiltins` is the hand-made account, `census_builtins_accounted` proves every census entry
-has account rows of the same (file, fn, kind, text) with at least its count.
+`accountBuiltins` is the hand-made account, `census_builtins_accounted` proves every key
+(file, kind, text) — `unwrap` / `expect` being one kind keyed by the receiver — is counted by the
+census, over the whole file, at most as often as the account has rows for it (`coversF`).
 
 With the three lists every `.rs` file of tera/src except `verif_hooks.rs` and `snapshot_tests/` is
 read by the extractor (a source file that is in none of its lists — a file added later — is read
@@ -102,8 +103,8 @@ def accountBuiltins : List Row := [
    .guarded "NON-LOCAL: by the same two constructors `data[..len]` is `s.as_bytes()` of the `&str` given to \
      `SmartString::new` (`copy_from_slice`, value/mod.rs:121), never modified afterwards (no `&mut` access to \
      `data`); the models hold strings as `List Char`, so this is not a theorem"),
-  -- value/mod.rs:223 (`Display for Value`; on the path: `StrConcat` of non-strings, error messages)
-  (("value/mod.rs", "fmt", "expect", "\"valid utf-8 in display\"", 1),
+  -- value/mod.rs:223 `.expect("valid utf-8 in display")` (`Display for Value`; on the path: `StrConcat` of non-strings, error messages)
+  (("value/mod.rs", "fmt", "unwrap", "std::str::from_utf8(&out)", 1),
    .guarded "NON-LOCAL: `out` was filled by `self.format(&mut out)` four lines above, and every arm of \
      `Value::format` / `format_map` (value/mod.rs:495-560, 39-62) writes whole `str`s (ASCII byte-string literals, \
      `as_str().as_bytes()`, `String::from_utf8_lossy(..).as_bytes()`, `write!` of std `Display` / `Debug` impls); \
@@ -148,8 +149,8 @@ def accountBuiltins : List Row := [
      is `(Integer, Integer)` or `(Float, Float)`: the two arms before this one"),
 
   /- ───────────── value/ser.rs ───────────── -/
-  -- ser.rs:480
-  (("value/ser.rs", "serialize_value", "expect", "\"missing key\"", 1),
+  -- ser.rs:480 `self.key.take().expect("missing key")`
+  (("value/ser.rs", "serialize_value", "unwrap", "self.key.take()", 1),
    .notOnPath "serde's `SerializeMap` protocol (`serialize_key` before `serialize_value`): fires only for a \
      hand-written `Serialize` impl of HOST data that breaks the protocol (serde_json panics the same way); \
      derived impls and `serialize_entry` honour it; not reached by template input")
